@@ -856,3 +856,28 @@ v("d47-top-level-select-order-nested-path", "C08", SM,
 v("d47-twin-list-call", "C08", SM,
   "            sql_str_list = near_sql.to_sql_str_list(\n                columns=[c for c in ops.column_names],\n", "            sql_str_list = near_sql.to_sql_str_list(\n                columns=list(ops.column_names),\n", expect="silent")
 v("d48-pandas-result-order", "C08", PB, "            res = res[declared_columns]\n", "            pass\n")
+
+v("d49-star-when-columns-requested", "C08", SM,
+  "        elif (columns is not None) and (len(columns) > 0):\n            # a step with no terms of its own (order_rows) still lists exactly the requested columns\n            terms_strs = [self.quote_identifier(k) for k in columns]\n", "")
+v("d49-binary-star-always", "C08", SM,
+  "        terms_strs = [self.enc_term_(k, terms=terms) for k in columns]\n        if len(terms_strs) < 1:\n            terms_strs = [\"*\"]\n        is_union",
+  "        terms_strs = [\"*\"]\n        is_union")
+v("d49-twin-star-guard-spelled-eq-zero", "C08", SM,
+  "        terms_strs = [self.enc_term_(k, terms=terms) for k in columns]\n        if len(terms_strs) < 1:\n            terms_strs = [\"*\"]\n        is_union",
+  "        terms_strs = [self.enc_term_(k, terms=terms) for k in columns]\n        if len(terms_strs) == 0:\n            terms_strs = [\"*\"]\n        is_union", expect="silent")
+
+v("d50-select-columns-narrows-raw-step-in-place", "C08", SM,
+  "        if subsql.terms is None:\n            # sub-step has no select list of its own to narrow (user SQL, record conversion): select from it\n            view_name = \"select_columns_\"",
+  "        if False:\n            view_name = \"select_columns_\"")
+v("d50-drop-columns-narrows-raw-step-in-place", "C08", SM,
+  "        if subsql.terms is None:\n            # sub-step has no select list of its own to narrow (user SQL, record conversion): select from it\n            kept =",
+  "        if subsql.terms == 0:\n            kept =")
+
+v("d51-pandas-rename-before-delete", "C08", PB,
+  "            res = res[column_selection]\n        res = res.rename(columns=op.column_remapping)\n        return res",
+  "            res = res[column_selection]\n        return res")
+v("d51-pandas-rename-first", "C08", PB,
+  "        # deletions name input columns: remove them before renaming (a new name may re-use a deleted one)\n        if (op.column_deletions is not None) and (len(op.column_deletions) > 0):\n            column_selection",
+  "        res = res.rename(columns=op.column_remapping)\n        if (op.column_deletions is not None) and (len(op.column_deletions) > 0):\n            column_selection")
+v("d51-polars-no-delete-before-rename", "C08", PM,
+  "            res = res.select([c for c in res.columns if c not in op.column_deletions])\n        res = res.rename(op.column_remapping)", "            pass\n        res = res.rename(op.column_remapping)")
